@@ -15,6 +15,18 @@ def finite_tables(rep, maxn):
     for h in range(0, maxn + 1):
         for w in range(0, maxn + 1):
             rep.finite_tables += 1
+            try:
+                ok = _structure_ok(h, w)
+            except Exception as e:
+                ok = False
+            if not ok:
+                rep.counterexample("structure", "frame %dx%d: all_edges/iteration/_from_grid_frame disagree with the geometry" % (h, w),
+                                   {"engine": "table", "h": h, "w": w}, True)
+
+
+def _structure_ok(h, w):
+    if True:
+        if True:
             s = Solver()
             f = BoolGridFrame(s, h, w)
             ok = tuple(f.horizontal.shape) == (h + 1, w) and tuple(f.vertical.shape) == (h, w + 1)
@@ -39,9 +51,7 @@ def finite_tables(rep, maxn):
                 ok = ok and e is want
                 seen.add(id(e))
             ok = ok and seen == set(order)
-            if not ok:
-                rep.counterexample("structure", "frame %dx%d: all_edges/iteration/_from_grid_frame disagree with the geometry" % (h, w),
-                                   {"engine": "table", "h": h, "w": w}, True)
+            return ok
 
 
 def run(tier, only=None):
